@@ -389,13 +389,15 @@ pub fn export_type<'a>(m: &'a Module, fidx: u32) -> &'a FuncTy {
 }
 
 pub fn case_json(m: &Module, v1: bool, export: &str, args: &[V], which: &str) -> J {
+    let text = wasmref::show::show_mod(m);
+    let text = if text.len() > 20_000 { format!("{}... ({} characters)", &text[..20_000], text.len()) } else { text };
     json!({
         "validation_config": if v1 { "V1" } else { "V0" },
         "artifact": which,
         "export": export,
         "args": format!("{:?}", args),
         "module_hex": vmon_core::hex(&m.encode()),
-        "module_text": wasmref::show::show_mod(m),
+        "module_text": text,
     })
 }
 
